@@ -9,7 +9,7 @@ ID = "C03"
 COQ_PROPERTY_FILE = "Properties/C03.v"
 COQ_DEPS = ["Common/ListX.v", "Common/ObsHash.v", "Generated/Tables.v", "Model/AgentSet.v", "Proofs/AgentSetProofs.v",
             "Proofs/AgentSetBridge.v"]
-COQ_IMPORTS = "From Mesa Require Import Model.AgentSet."
+COQ_IMPORTS = "From Mesa Require Import Common.ListX Model.AgentSet."
 COQ_CASE_TYPE = "case"
 COQ_RUN = "run_case"
 TABLE_CONSTRUCTS = ["agentset_select_fast", "agentset_select_limit", "agentset_select_keep", "agentset_select_loop",
@@ -327,7 +327,10 @@ def _rand_rich_case(rng):
     agents = []
     for _ in range(n):
         attrs = [[k, rng.choice(_RICH_DOMAINS[doms[k]])] for k in range(NATTR) if k == 0 or rng.random() < 0.8]
-        agents.append([rng.randrange(5), attrs])
+        cls = rng.randrange(6)
+        if cls == 5:          # class G: a1 is a property, a2 a class attribute unless the instance overrides it
+            attrs = [x for x in attrs if x[0] == 0 or (x[0] == 2 and rng.random() < 0.3)]
+        agents.append([cls, attrs])
     ops = []
     ams = [["npfloat", 1, 1], ["npfloat", 3, 2], ["npint", 2], ["bool", True], ["bool", False], ["big", str(2 ** 70)],
            ["real", "0.7"], ["real", "0.3"], ["real", "0.1"], ["real", "0.6"], ["real", "0.29"], ["real", "0.9999999999999999"], ["inf"], ["int", 2]]
@@ -344,7 +347,8 @@ def _rand_rich_case(rng):
             key = ["attr", k] if rng.random() < 0.7 else ["pair", ["attr", k], ["id"]]
             ops.append(["sort", s, key, rng.random() < 0.5, rng.random() < 0.3, d])
         elif r < 0.6:
-            ops.append(["get", s, [k, rng.randrange(NATTR)], rng.random() < 0.5, rng.choice([0, 1]), rng.choice([["none"], c, 0])])
+            names = [k] if rng.random() < 0.35 else [k, rng.randrange(NATTR)]      # a one-name LIST is not the str form
+            ops.append(["get", s, names, rng.random() < 0.4, rng.choice([0, 1]), rng.choice([["none"], c, 0])])
         elif r < 0.7:
             ops.append(["set", s, rng.randrange(NATTR), c])
         elif r < 0.8:
@@ -358,8 +362,92 @@ def _rand_rich_case(rng):
     return {"rich": True, "seed": rng.randrange(1000), "agents": agents, "init": list(range(1, n + 1)), "ops": ops}
 
 
+SCALE_SIZES = [255, 256, 257, 300, 512, 1000, 1024, 1025, 2048, 2049]
+SCALE_KEYTYPES = ["int", "bool", "float", "npint", "npfloat", "str", "tuple", "frac", "bigint"]
+
+
+def _scale_value(kt, v):
+    """the small key value v (0..3: heavy ties) as a value of the key type kt, in the rich encoding"""
+    if kt == "int":
+        return v
+    if kt == "bool":
+        return ["b", bool(v % 2)]
+    if kt == "float":
+        return ["f", repr(v * 0.1)]
+    if kt == "npint":
+        return ["np", "int64", str(v)]
+    if kt == "npfloat":
+        return ["np", "float64", repr(v * 0.5)]
+    if kt == "str":
+        return ["s", ["pear", "apple", "Apple", "fig"][v]]
+    if kt == "tuple":
+        return ["t", [v // 2, v % 2]]
+    if kt == "frac":
+        return ["frac", f"{v}/3"]
+    return ["big", str(2 ** 53 + v)]
+
+
+def _scale_ops(rng, n, modelled):
+    """every query of the statement on one big set and on sets derived from it"""
+    third, half = n // 3, n // 2
+    ops = [["sort", 0, ["attr", 0], False, False, 1], ["sort", 0, ["attr", 0], True, False, 2]]
+    if not modelled or rng.random() < 0.5:
+        ops.append(["sort", 0, ["mod", 1, 2] if modelled else ["pair", ["attr", 0], ["attr", 1]], rng.random() < 0.5, False, 3])
+    ops += [["select", 0, ["le", 1, 1], ["int", third], None, False, 3], ["select", 1, None, ["frac", 1, 1], rng.choice([None, 0, 1]), False, 4],
+            ["select", 2, ["eq", 2, 1], ["frac", 3, 2], None, True, 2], ["sort", 3, ["attr", 1], rng.random() < 0.5, True, 3],
+            ["setop", 3, 4, rng.choice(["or", "and", "sub", "xor"]), False, 5], ["setop", 4, 3, rng.choice(["or", "and", "sub", "xor"]), True, 5],
+            ["groupcount", 0, ["attr", 0]], ["get", 1, [0, 1], False, 1, 0], ["agg", 1, 1, "sum"], ["set", 4, 2, 7],
+            ["remove", 0, 256], ["discard", 0, 257], ["add", 0, 256], ["pop", 0], ["index", 0, 255], ["slice", 0, 250, 260],
+            ["sort", 0, ["attr", 0], False, True, 0], ["sort", 0, ["attr", 2], True, True, 0], ["groupby", 0, ["attr", 1], "list"]]
+    if not modelled:
+        ops += [["shuffle", 0, True, 0], ["sort", 0, ["attr", 0], True, True, 0], ["shuffle", 1, False, 5], ["sort", 5, ["attr", 0], False, False, 4],
+                ["setcmp", 0, 5, "eq"], ["setcmp", 3, 0, "le"], ["map", 0, ["key", ["attr", 0]]], ["groupmap", 0, ["attr", 0], "agentset", ["len", False]]]
+        rng.shuffle(ops)
+        ops = [["sort", 0, ["attr", 0], False, False, 1], ["sort", 0, ["attr", 0], True, False, 2]] + ops
+    else:
+        rest = ops[2:]
+        rng.shuffle(rest)
+        ops = ops[:2] + rest[:7]         # keep the Gallina evaluation cheap: the model's table lookups are linear
+    return ops
+
+
+def _scale_case(rng, n, kt, modelled=False):
+    seed = rng.randrange(50)
+    agents = []
+    for i in range(1, n + 1):
+        v0, v1, v2 = (i * i + seed * i + 3) % 4, (i * 7 + seed) % 3, (i + seed) % 2
+        agents.append([i % 5, [[0, v0 if modelled else _scale_value(kt, v0)], [1, v1], [2, v2]]])
+    c = {"seed": seed, "agents": agents, "init": list(range(1, n + 1)), "ops": _scale_ops(rng, n, modelled)}
+    if modelled:
+        c["gen"] = [n, seed]         # Model/AgentSet.v gen_agents n seed  (same formulas)
+    else:
+        c["rich"] = True             # implementation + oracle only
+        c["scale"] = [n, kt]
+    return c
+
+
+def _scale_cases(rng, tier, broken=False):
+    out = []
+    if broken or tier != "quick":
+        sizes = SCALE_SIZES + ([4096] if broken or tier != "quick" else [])
+        for n in sizes:
+            for kt in SCALE_KEYTYPES:
+                if n <= 1025 or kt in ("int", "bool", "float", "str") or rng.random() < 0.3:
+                    out.append(_scale_case(rng, n, kt))
+        for n in (255, 256, 257, 300):
+            out.append(_scale_case(rng, n, "int", modelled=True))
+    else:
+        # quick: a handful - the thresholds with plain ints, one other key type per run, one population also in Coq
+        for n in (255, 256, 257, 1025):
+            out.append(_scale_case(rng, n, "int"))
+        out.append(_scale_case(rng, rng.choice([512, 2049]), rng.choice(SCALE_KEYTYPES[1:])))
+        out.append(_scale_case(rng, rng.choice([256, 257]), "int", modelled=True))
+    return out
+
+
 def gen_cases(rng, tier):
     cases = list(_corner_cases())
+    cases += _scale_cases(rng, tier)
     for _ in range(100 if tier == "quick" else 3000):
         cases.append(_rand_rich_case(rng))
     n = 800 if tier == "quick" else 24000
@@ -462,6 +550,11 @@ def enumerate_cases(tier, broken=False):
     """targeted sweep: every member list over <= 4 agents with a0 in {0,1} (all tie patterns) and two classes x
     every select(pred, at_most, type, inplace) / sort(key, direction, inplace) / groupby, each followed by the
     same call on the derived set."""
+    if broken or tier == "thorough":
+        import random as _random
+        for c in _scale_cases(_random.Random(4242), tier, broken=True):
+            c.pop("gen", None)
+            yield c
     nmax = 4 if (tier == "thorough" or broken) else 2
     preds = [None, ["true"], ["false"], ["le", 0, 0], ["not", ["le", 0, 0]], ["idmod", 2, 0]]
     for n in range(0, nmax + 1):
@@ -518,7 +611,18 @@ def _classes():
         class F(A, Falsy):    # agents whose truth value is False
             pass
 
-        _CLASSES = [A, B, C, D, F]
+        class G(A):           # rich (oracle-only) stream: attributes that do not live in the instance __dict__
+            a2 = 42           # a class-level attribute
+
+            @property
+            def a1(self):     # a computed attribute
+                return getattr(self, "_a1", 7)
+
+            @a1.setter
+            def a1(self, v):
+                self._a1 = v
+
+        _CLASSES = [A, B, C, D, F, G]
     return _CLASSES
 
 
@@ -624,11 +728,12 @@ def run_impl(case):
     # CPU time of this process (ITIMER_VIRTUAL), not wall-clock: on a heavily loaded machine a worker can be
     # descheduled for seconds, which must not look like a hang
     signal.signal(signal.SIGVTALRM, _on_alarm)
+    budget = OP_TIMEOUT * (1 + len(case["agents"]) // 100)     # the observer is linear in the population: scale stream
     try:
         # repeating: an exception raised by the handler inside a finaliser / weakref callback is swallowed by
         # the interpreter, so keep firing until it lands in ordinary code
         return _run_impl(case, mesa, AgentSet,
-                         lambda on=True: signal.setitimer(signal.ITIMER_VIRTUAL, OP_TIMEOUT if on else 0, 0.05 if on else 0))
+                         lambda on=True: signal.setitimer(signal.ITIMER_VIRTUAL, budget if on else 0, 0.05 if on else 0))
     finally:
         signal.setitimer(signal.ITIMER_VIRTUAL, 0)
 
@@ -659,6 +764,7 @@ def _run_impl(case, mesa, AgentSet, arm):
     obs, failures, ops_for_model = [], [], []
 
     def fail(i, key, what):
+        what = what if len(what) <= 700 else what[:500] + " ... " + what[-150:]
         failures.append({"key": key, "op": i, "what": what})
         if key.split("/")[-1] in ("state-changed-by-rejected-call",):
             failures.append({"key": "C18/" + key.split("/", 1)[1], "op": i, "what": what})
@@ -698,9 +804,15 @@ def _run_impl(case, mesa, AgentSet, arm):
             st = pool[s]
             if len(st) != len(got) or len(set(ids(got))) != len(got):
                 fail(i, "C03/ordered-set/len-or-duplicates", f"slot {s}: len()={len(st)}, iteration gives {ids(got)}")
-            if [st[j] for j in range(len(got))] != got or st[:] != got:
-                fail(i, "C03/ordered-set/indexing-disagrees-with-iteration", f"slot {s}: iteration {ids(got)}, indexing {[st[j].unique_id for j in range(len(got))]}")
-            if [a for a in agents if a in st] != [a for a in agents if a in got]:
+            if len(got) <= 64:
+                js = range(len(got))
+            else:       # each st[j] builds a list: sample the indices (thresholds, ends) instead of all of them
+                js = sorted({j for j in (0, 1, 7, 8, 31, 32, 63, 64, 127, 128, 254, 255, 256, 257, 511, 512, 1023, 1024, 1025, 2047, 2048,
+                                         len(got) // 2, len(got) - 2, len(got) - 1) if 0 <= j < len(got)})
+            if [st[j] for j in js] != [got[j] for j in js] or st[:] != got:
+                fail(i, "C03/ordered-set/indexing-disagrees-with-iteration", f"slot {s}: iteration {ids(got)}, indexing {[st[j].unique_id for j in js]}")
+            gotset = {id(a) for a in got}
+            if [a for a in agents if a in st] != [a for a in agents if id(a) in gotset]:
                 fail(i, "C03/ordered-set/membership-disagrees-with-iteration", f"slot {s}: iteration {ids(got)}")
         for a in agents:
             cur = {n: getattr(a, f"a{n}") for n in range(NATTR) if hasattr(a, f"a{n}")}
@@ -955,7 +1067,7 @@ def _run_impl(case, mesa, AgentSet, arm):
                 elif kind == "groupagg":
                     n, fn = op[3], op[4]
                     func = {"sum": sum, "min": min, "max": max, "len": len}[fn]
-                    e = _attempt(lambda: [(k, func([vars(a)[f"a{n}"] for a in v])) for k, v in expg])
+                    e = _attempt(lambda: [(k, func([getattr(a, f"a{n}") for a in v])) for k, v in expg])
                     res = gb.agg(f"a{n}", func)
                     if e[0] != "ok":
                         fail(i, "C03/groupby/agg-no-exception", f"{op} on {ids(before)}: list semantics raises {e[1].__name__}, agg returned {res}")
@@ -1007,7 +1119,7 @@ def _run_impl(case, mesa, AgentSet, arm):
                     elif gm[0] == "sum":
                         name = f"a{gm[1]}"
                         res = gb.map(lambda g: sum(getattr(a, name) for a in g))
-                        e = _attempt(lambda: [(k, [sum(vars(a)[name] for a in v)]) for k, v in expg])
+                        e = _attempt(lambda: [(k, [sum(getattr(a, name) for a in v)]) for k, v in expg])
                         flat = lambda v: [v]  # noqa: E731
                     else:
                         name = f"a{gm[1]}"
@@ -1015,7 +1127,7 @@ def _run_impl(case, mesa, AgentSet, arm):
                         if rt == "list":    # a list has no method get
                             e = ("err", AttributeError) if expg else ("ok", [])
                         else:
-                            e = _attempt(lambda: [(k, [len(v)] + [vars(a)[name] for a in v]) for k, v in expg])
+                            e = _attempt(lambda: [(k, [len(v)] + [getattr(a, name) for a in v]) for k, v in expg])
                         flat = lambda v: [len(v)] + list(v)  # noqa: E731
                     got = [(k, flat(v)) for k, v in res.items()]
                     if e[0] != "ok":
@@ -1044,7 +1156,9 @@ def _run_impl(case, mesa, AgentSet, arm):
                     raise _Skip()
                 other = pool[s2]
                 b2 = list(shadow[s2])
-                inb = lambda l: (lambda x: any(x is y for y in l))  # noqa: E731
+                def inb(l):
+                    members = {id(y) for y in l}
+                    return lambda x: id(x) in members
                 if kind == "setop":
                     o, inplace, d = op[3], op[4], op[5]
                     fn = {("or", False): _op.or_, ("and", False): _op.and_, ("sub", False): _op.sub, ("xor", False): _op.xor,
@@ -1053,10 +1167,11 @@ def _run_impl(case, mesa, AgentSet, arm):
                         warnings.simplefilter("ignore")
                         res = fn(st, other)
                     got = list(res)
-                    want = {"or": [x for x in before] + [x for x in b2 if not inb(before)(x)],
-                            "and": [x for x in before if inb(b2)(x)],
-                            "sub": [x for x in before if not inb(b2)(x)],
-                            "xor": [x for x in before if not inb(b2)(x)] + [x for x in b2 if not inb(before)(x)]}[o]
+                    in_a, in_b = inb(before), inb(b2)
+                    want = {"or": [x for x in before] + [x for x in b2 if not in_a(x)],
+                            "and": [x for x in before if in_b(x)],
+                            "sub": [x for x in before if not in_b(x)],
+                            "xor": [x for x in before if not in_b(x)] + [x for x in b2 if not in_a(x)]}[o]
                     if sorted(ids(got)) != sorted(ids(want)) or len(set(ids(got))) != len(got):
                         fail(i, "C03/setop/wrong-members", f"{op} on {ids(before)} and {ids(b2)}: got {ids(got)}, the set operation gives {sorted(ids(want))}")
                     if inplace:
@@ -1083,11 +1198,11 @@ def _run_impl(case, mesa, AgentSet, arm):
                 dflt = _val(dflt)
                 if single and names:
                     arg = f"a{names[0]}"
-                    e = _attempt(lambda: [vars(a)[arg] if mode == 0 else vars(a).get(arg, dflt) for a in before])
+                    e = _attempt(lambda: [getattr(a, arg) if mode == 0 else getattr(a, arg, dflt) for a in before])
                     flat = lambda r: list(r)  # noqa: E731
                 else:
                     arg = [f"a{n}" for n in (names[:1] if single else names)]
-                    e = _attempt(lambda: [[vars(a)[x] if mode == 0 else vars(a).get(x, dflt) for x in arg] for a in before])
+                    e = _attempt(lambda: [[getattr(a, x) if mode == 0 else getattr(a, x, dflt) for x in arg] for a in before])
                     flat = lambda r: [x for row in r for x in row]  # noqa: E731
                 ref_err = e[1] if e[0] == "err" else None
                 arg_copy = list(arg) if isinstance(arg, list) else arg
@@ -1118,7 +1233,7 @@ def _run_impl(case, mesa, AgentSet, arm):
             elif kind == "agg":
                 _, _, n, fn = op
                 func = {"sum": sum, "min": min, "max": max, "len": len}[fn]
-                e = _attempt(lambda: func([vars(a)[f"a{n}"] for a in before]))
+                e = _attempt(lambda: func([getattr(a, f"a{n}") for a in before]))
                 ref_err = e[1] if e[0] == "err" else None
                 res = st.agg(f"a{n}", func)
                 if e[0] != "ok":
@@ -1134,7 +1249,7 @@ def _run_impl(case, mesa, AgentSet, arm):
                     res = st.map(kc)
                 else:
                     c = mf[1]
-                    e = _attempt(lambda: [vars(a)["a0"] + c for a in before])
+                    e = _attempt(lambda: [getattr(a, "a0") + c for a in before])
                     res = st.map("plus", c) if i % 2 else st.map("plus", c=c)
                 ref_err = e[1] if e[0] == "err" else None
                 if e[0] != "ok":
@@ -1254,11 +1369,11 @@ def _run_impl(case, mesa, AgentSet, arm):
             elif k == E_ATTR and kind == "groupmap":
                 gmk = op[4]
                 expected = (_would_raise_attr(op, before, cl) or (gmk[0] == "get" and op[3] == "list" and bool(before))
-                            or (gmk[0] in ("sum", "get") and any(f"a{gmk[1]}" not in vars(a) for a in before)))
+                            or (gmk[0] in ("sum", "get") and any(not hasattr(a, f"a{gmk[1]}") for a in before)))
             elif k == E_ATTR and kind == "groupdo":
                 expected = _would_raise_attr(op, before, cl) or (op[4] and op[3] == "list" and bool(before))
             elif k == E_ATTR and kind == "groupagg":
-                expected = _would_raise_attr(op, before, cl) or any(f"a{op[3]}" not in vars(a) for a in before)
+                expected = _would_raise_attr(op, before, cl) or any(not hasattr(a, f"a{op[3]}") for a in before)
             elif k == E_ATTR and kind in ("select", "sort", "groupby", "groupget", "get", "agg", "map", "groupcount", "groupdoset"):
                 # legitimate exactly when evaluating the user function over the members raises
                 expected = _would_raise_attr(op, before, cl)
@@ -1323,10 +1438,10 @@ def _would_raise_attr(op, before, cl):
             names = op[2][:1] if op[3] else op[2]
             for a in before:
                 for n in names:
-                    vars(a)[f"a{n}"]
+                    getattr(a, f"a{n}")
         elif kind == "agg":
             for a in before:
-                vars(a)[f"a{op[2]}"]
+                getattr(a, f"a{op[2]}")
         elif kind == "map":
             if op[2][0] == "key":
                 kc = _mk_key(op[2][1], as_callable=True)
@@ -1334,7 +1449,7 @@ def _would_raise_attr(op, before, cl):
                     kc(a)
             else:
                 for a in before:
-                    vars(a)["a0"]
+                    getattr(a, "a0")
     except (AttributeError, KeyError):
         return True
     return False
@@ -1459,6 +1574,11 @@ def _c_op(op):
 def coq_case(case):
     if case.get("rich"):
         return "{| c_agents := []; c_init := []; c_ops := [] |}"
+    if case.get("gen"):        # scale stream: the population is described by (n, seed), not listed
+        n, seed = case["gen"]
+        ops = case.get("_ops_for_model") or case["ops"]
+        return (f"{{| c_agents := gen_agents {n} {seed}; c_init := zrange 1 {n}; "
+                f"c_ops := {L.lst([_c_op(o) for o in ops])} |}}")
     ags = []
     for i, (cls, attrs) in enumerate(case["agents"]):
         at = L.lst([L.pair(L.z(n), L.z(v)) for n, v in attrs])
